@@ -452,7 +452,7 @@ var crossTalk struct {
 	msgs []string
 }
 
-func (x *W) installDispatch(k int, specs []string) {
+func (x *W) installDispatch(k int, late int, specs []string) {
 	var cbs []*listener.Callback
 	for i := 0; i+1 < len(specs); i += 2 {
 		s, _ := strconv.Atoi(specs[i])
@@ -471,11 +471,19 @@ func (x *W) installDispatch(k int, specs []string) {
 	} else {
 		d = listener.NewDispatch(first...)
 	}
-	for i := k; i < len(cbs); i++ {
+	early := len(cbs) - late
+	if early < k {
+		early = k
+	}
+	for i := k; i < early && i < len(cbs); i++ {
 		d.AddListener(cbs[i])
 	}
 	x.cb = nil
 	x.w.SetListener(&d)
+	// sub-listeners added while the Dispatch is installed
+	for i := early; i < len(cbs); i++ {
+		d.AddListener(cbs[i])
+	}
 }
 
 func (x *W) callback(to int, subs int, comps string) listener.Callback {
@@ -879,7 +887,12 @@ func (h *H) exec(wk int, cmd string, a []string, idxSeed int) (res string, msg s
 		x.installListener(atoi(a[0]), a[1])
 		return "ok", ""
 	case "LISTEND":
-		x.installDispatch(atoi(a[0]), a[1:])
+		k, late := a[0], 0
+		if i := strings.Index(k, "+"); i >= 0 {
+			late = atoi(k[i+1:])
+			k = k[:i]
+		}
+		x.installDispatch(atoi(k), late, a[1:])
 		return "ok", ""
 	case "LOCKED":
 		return fmt.Sprintf("b %d", b01(x.w.IsLocked())), ""
